@@ -128,6 +128,8 @@ func init() {
 			ruleAlias(r)
 			ruleIntern(r)
 			ruleL1(r, backfillExempt)
+			// the enum's shared string table is extended atomically with the lookup that missed
+			ruleL7sel(r, func(f string) bool { return f == "column.columnEnum.data" || f == "column.columnEnum.seek" }, false)
 		}})
 	register(&PropSpec{ID: "C02",
 		Explanation: "Atomicity — structural part. (C02.query) path rules over Collection.Query/rollback/commit/reset: error edge ⇒ rollback only, nil edge ⇒ commit only, transaction released, buffers dropped on every exit; (C02.effects) who-may-call over the context graph of the lockset walk: every Apply body and every logger/recorder append is reachable only below Txn.commit (or index back-fill); (C02.isolation) no bit of the shared fill list is set outside commit; (C02.release) failing inserts free their offset and leave no marker, rollback releases the offsets of successful inserts; (C02.readers) no reading API decodes a transaction buffer." + staticNote,
@@ -231,6 +233,7 @@ func init() {
 			ruleStorageArms(r)
 			ruleL1(r, backfillExempt)
 			ruleMergeQueued(r)
+			ruleMergeReentrant(r)
 			ruleUnits(r, "C09.units", unitsText, 10, applyUnitFns("numeric", "string"))
 		}})
 	register(&PropSpec{ID: "C10",
